@@ -307,6 +307,14 @@ def run(ctx):
                             ctx.ob("C07.V2.comparator-is-total", "%s%s|%s" % (tag, f.path, c.name.split("::")[-1]), not badc,
                                    "comparator passed to %s uses %s: not a total order (NaN) / may panic" % (c.name.split("::")[-1], badc),
                                    f.where(c.bb))
+        # ---- V6: the hashing family of numbers goes through `i64::try_from(value)`; its float arm must not accept 2^63
+        # (saturating cast), or the float hashes like i64::MAX while being equal to the integer 2^63
+        from .c08 import float_roundtrip_sites
+        conv = [g for g in prog.fns.values() if g.crate == "minijinja" and g.path.endswith("for i64>::try_from") and "minijinja::value::Value" in g.path]
+        for g, rb, guarded in float_roundtrip_sites(prog, conv):
+            ctx.ob("C07.V6.integral-float-hashes-like-the-equal-integer", tag + g.path, guarded,
+                   "i64::try_from(Value) accepts the float 2^63 through the saturating cast and yields i64::MAX: the float "
+                   "is hashed as i64::MAX although it equals the integer 2^63, which is hashed through its float bits", g.where(rb))
         # ---- V5
         eqfns = [g for g in prog.fns.values() if g.crate == "minijinja" and (
             g.path.startswith("<minijinja::value::Value as core::cmp::") or "minijinja::value::Value as core::cmp::" in g.path)]
